@@ -175,6 +175,10 @@ RISKCFG_MODELS = [
 STAKED_MODELS = [
     {"name": "staked", "module": "MC_Staked.tla", "cfg": {"quick": "MC_StakedQuick.cfg", "thorough": "MC_StakedThorough.cfg"},
      "setup": "setups/stakedmodel.json", "init_from_setup": True, "timeout": {"quick": 900, "thorough": 10000}},
+    # random behaviours of 30 / 60 steps of the same model (tlc -simulate): every successor of every visited state is predicted and replayed
+    {"name": "stakedwalk", "module": "MC_Staked.tla", "cfg": {"quick": "MC_StakedWalkQuick.cfg", "thorough": "MC_StakedWalkThorough.cfg"},
+     "setup": "setups/stakedmodel.json", "init_from_setup": True, "simulate": {"quick": [3, 30], "thorough": [40, 60]},
+     "timeout": {"quick": 900, "thorough": 10000}},
 ]
 
 
@@ -184,6 +188,9 @@ VENUERISK_MODELS = [
      "setup": "setups/venuerisk.json", "init_from_setup": True, "timeout": {"quick": 900, "thorough": 10000}},
     {"name": "venueriskswb", "module": "MC_VenueRisk.tla", "cfg": {"quick": "MC_VenueRiskSwbQuick.cfg", "thorough": "MC_VenueRiskSwbThorough.cfg"},
      "setup": "setups/venueriskswb.json", "init_from_setup": True, "timeout": {"quick": 900, "thorough": 10000}},
+    {"name": "venueriskwalk", "module": "MC_VenueRisk.tla", "cfg": {"quick": "MC_VenueRiskWalkQuick.cfg", "thorough": "MC_VenueRiskWalkThorough.cfg"},
+     "setup": "setups/venuerisk.json", "init_from_setup": True, "simulate": {"quick": [3, 30], "thorough": [40, 60]},
+     "timeout": {"quick": 900, "thorough": 10000}},
 ]
 
 
